@@ -200,6 +200,38 @@ def run(ctx):
                             ctx.count("directed_programs")
                             if len(seq) >= 2 and any(s[2] == "q" for s in seq):
                                 ctx.nontrivial("d", tuple(seq))
+            # directed: 0-dim quantized tensors against every kind of scalar (python numbers, 0-dim tensors of the working
+            # dtype / float64 / int64, one-element tensors): type promotion differs from tensors with dimensions
+            for kind in ("act8", "acte4", "acte5"):
+                for sk in range(programs.N_SCALAR_KINDS):
+                    for opn in ("mul", "rmul", "div", "torch.mul", "torch.div"):
+                        k += 1
+                        if not ctx.mine(k):
+                            continue
+                        wd = DT[k % 3]
+                        if not ctx.case(dict(directed="zero_dim_" + opn, kind=kind, scalar_kind=sk, dtype=str(wd))):
+                            continue
+                        r_ = ctx.crng
+                        pool = programs.Pool(oq, r_, wd)
+                        with torch.no_grad():
+                            a0, _ = pool.fresh((), kind)
+                            s0 = programs.scalar(r_, sk)
+                            mon.step_info = dict(template="zero_dim_" + opn, scalar_kind=sk, dtype=str(wd))
+                            try:
+                                if opn == "mul":
+                                    a0 * s0
+                                elif opn == "rmul":
+                                    s0 * a0
+                                elif opn == "div":
+                                    a0 / s0
+                                elif opn == "torch.mul":
+                                    torch.mul(a0, s0)
+                                else:
+                                    torch.div(a0, s0)
+                            except Exception:
+                                ctx.count("steps_raised")
+                            mon.step_info = None
+                        ctx.count("directed_zero_dim_programs")
             for i in range(n_prog):
                 wd = DT[int(rng.integers(3))]
                 depth = int(rng.integers(1, 9))
